@@ -61,6 +61,9 @@ func runC11Case(rt *rapid.T) {
 	U := 30000
 	if small {
 		U = irange(rt, 20, 400, "smallU")
+		if uniform(rt, 4, "beyondByteWidth") == 0 {
+			U = irange(rt, 500, 760, "smallU2") // the constant-hasher instance then resizes with more than 255 (and 480) entries in ONE chain
+		}
 	} else {
 		U = pick(rt, []int{600, 3000, 30000, 30000, 120000}, "largeU")
 	}
@@ -221,6 +224,12 @@ func runC11Case(rt *rapid.T) {
 					o = model.Op{K: model.MClear}
 				}
 			case c < 21:
+				if uniform(rt, 4, "collectFirst") == 0 {
+					// retired tables and unlinked buckets are garbage by now: collect them and reuse the memory
+					// before reading everything back
+					adapt.CollectAndChurn()
+					stats.Inc("checkpoints_after_gc")
+				}
 				checkpoint()
 				return
 			default:
